@@ -69,7 +69,6 @@ def expectedDefs : List ((String × String × String × String) × Role) := [
   (("cssutils/profiles.py", "Profiles", "_MACROS", "dict"), .const),
   (("cssutils/profiles.py", "Profiles", "_TOKEN_MACROS", "dict"), .const),
   -- a class attribute that every CSSCaptureHTMLParser appends to
-  (("cssutils/script.py", "CSSCaptureHTMLParser", "sheets", "list"), .finding "C12-capture-sheets-shared"),
   (("cssutils/stylesheets/mediaquery.py", "MediaQuery", "MEDIA_TYPES", "list"), .const),
   -- `TkState.cache`
   (("cssutils/tokenize2.py", "<module>", "_TOKENIZER_CACHE", "dict"), .memo),
@@ -87,8 +86,8 @@ def expectedWrites : List (String × String × String × String) := [
   -- settingsSet: `_TOKENIZER_CACHE.clear()` and then `PRODUCTIONS.insert(1, …)` — an explicit setting (TkOp.settings)
   ("PRODUCTIONS", "cssutils/settings.py", "set", "call-insert"),
   ("_TOKENIZER_CACHE", "cssutils/settings.py", "set", "call-clear"),
-  -- newTokenizer: the store of tokenize2.py:61
-  ("_TOKENIZER_CACHE", "cssutils/tokenize2.py", "Tokenizer.__init__", "setitem"),
+  -- newTokenizer / runTokenizer: the store of `_bind` (tokenize2.py:75)
+  ("_TOKENIZER_CACHE", "cssutils/tokenize2.py", "Tokenizer._bind", "setitem"),
   -- attributes called `_log` of other objects (each bound on `self`); the class attribute `_BaseClass._log` is never rebound
   ("_log", "cssutils/errorhandler.py", "_ErrorHandler.__init__", "setattr-on-self"),
   ("_log", "cssutils/errorhandler.py", "_ErrorHandler.__init__", "setattr-on-self"),
@@ -103,7 +102,7 @@ def expectedWrites : List (String × String × String × String) := [
   -- import time
   ("_properties", "cssutils/css/cssproperties.py", "<module>", "call-append"),
   -- the tables handed out by the cache are bound to the new object and never changed (tokenize2.py:63-65)
-  ("commentmatcher", "cssutils/tokenize2.py", "Tokenizer.__init__", "setattr-on-self"),
+  ("commentmatcher", "cssutils/tokenize2.py", "Tokenizer._bind", "setattr-on-self"),
   -- import time: the built-in tables of profiles.py are filled in at module level
   ("macros", "cssutils/profiles.py", "<module>", "setitem"),
   ("macros", "cssutils/profiles.py", "<module>", "setitem"),
@@ -128,14 +127,11 @@ def expectedWrites : List (String × String × String × String) := [
   -- Step.newSer (explicit); `Out.__init__` binds an attribute of its own that happens to be called `ser`
   ("ser", "cssutils/css/cssstylesheet.py", "CSSStyleSheet.setSerializer", "setattr"),
   ("ser", "cssutils/serialize.py", "Out.__init__", "setattr-on-self"),
-  -- finding C12-capture-sheets-shared: instance methods change the list of the CLASS
-  ("sheets", "cssutils/script.py", "CSSCaptureHTMLParser.handle_data", "setitem-deep"),
-  ("sheets", "cssutils/script.py", "CSSCaptureHTMLParser.handle_starttag", "call-append"),
-  ("sheets", "cssutils/script.py", "CSSCaptureHTMLParser.handle_starttag", "call-append"),
+  -- (the class-level list CSSCaptureHTMLParser.sheets of the former finding C12-capture-sheets-shared is gone: a279ab6)
   -- ctor / runChild: `pushed := []`
   ("tokenizer", "cssutils/prodparser.py", "ProdParser.__init__", "call-clear"),
-  ("tokenmatches", "cssutils/tokenize2.py", "Tokenizer.__init__", "setattr-on-self"),
-  ("urimatcher", "cssutils/tokenize2.py", "Tokenizer.__init__", "setattr-on-self")
+  ("tokenmatches", "cssutils/tokenize2.py", "Tokenizer._bind", "setattr-on-self"),
+  ("urimatcher", "cssutils/tokenize2.py", "Tokenizer._bind", "setattr-on-self")
 ]
 
 def expectedFields : List (String × String × String × String) := [
@@ -164,6 +160,10 @@ def expectedFields : List (String × String × String × String) := [
   ("Profiles", "removeProfile", "_rawProfiles", "delitem"),
   ("Profiles", "removeProfile", "_usedMacros", "call-update"),
   ("Profiles", "removeProfile", "_usedMacros", "set"),
+  -- `_bind` (called by `__init__` and at the start of every `tokenize`): Memo.runTokenizer
+  ("Tokenizer", "_bind", "commentmatcher", "set"),
+  ("Tokenizer", "_bind", "tokenmatches", "set"),
+  ("Tokenizer", "_bind", "urimatcher", "set"),
   ("Tokenizer", "clear", "_pushed", "set"),
   ("Tokenizer", "push", "_pushed", "set"),
   ("_ErrorHandler", "__getattr__", "_logcall", "set"),
